@@ -4,9 +4,11 @@ import (
 	"fmt"
 	"os"
 	"strings"
+	"sync/atomic"
 	"time"
 
 	"verif.local/h/core"
+	"verif.local/h/impl"
 	rj "verif.local/h/refjson"
 )
 
@@ -279,4 +281,48 @@ func runSizeSweep(ctx *core.Ctx, id string, legacy bool, tier string, what sizeW
 			}
 		}
 	}
+}
+
+// runSizeSweepPanics: every ordered pair inside every size cluster through MergePatch, MergeMergePatches,
+// CreateMergePatch and Equal - judged only for "returns, does not panic" (C04).
+func runSizeSweepPanics(ctx *core.Ctx, id string, legacy bool, tier string) {
+	_, clusters := sizeClusters(tier, false)
+	type pair struct{ a, b string }
+	var pairs []pair
+	for _, c := range clusters {
+		for _, a := range c {
+			at := txt(a)
+			for _, b := range c {
+				pairs = append(pairs, pair{at, txt(b)})
+			}
+		}
+	}
+	n := ctx.Counter("size_sweep_panic_pairs")
+	ctx.Parallel(len(pairs), func(w *core.Worker, i int) {
+		p := pairs[i]
+		a, b := []byte(p.a), []byte(p.b)
+		lib := map[bool]string{false: "v5", true: "v4"}[legacy]
+		for _, fn := range []string{"MergePatch", "MergeMergePatches", "CreateMergePatch", "Equal"} {
+			fn := fn
+			w.Tick(func() string { return string(core.J(MergeCase{Lib: lib, Func: fn, Args: []string{p.a, p.b}})) })
+			var r impl.R
+			switch fn {
+			case "MergePatch":
+				r = impl.MergePatch(legacy, a, b)
+			case "MergeMergePatches":
+				r = impl.MergeMergePatches(legacy, a, b)
+			case "CreateMergePatch":
+				r = impl.CreateMergePatch(legacy, a, b)
+			default:
+				r = impl.Equal(legacy, a, b)
+			}
+			atomic.AddInt64(&nExec, 1)
+			if r.Panic != "" {
+				ctx.Violate(core.Violation{Property: id, Clause: "panic", Key: id + ":panic:" + impl.PanicSite(r.Panic), Engine: "mergex",
+					Detail: fmt.Sprintf("%s(%s, %s) panics: %s", fn, trunc(p.a, 300), trunc(p.b, 300), r.Panic),
+					Case:   core.J(MergeCase{Lib: lib, Func: fn, Args: []string{p.a, p.b}})})
+			}
+		}
+		atomic.AddInt64(n, 1)
+	})
 }
